@@ -61,7 +61,7 @@ let page = big_nat 4096
 let handle (line : string) : string =
   match split_ws line with
   | "FP" :: backend :: minb :: plain :: _comp :: chunks :: rest ->
-      let ops = match rest with [o] when o <> "-" -> o | _ -> "" in
+      let ops = match rest with o :: _ when o <> "-" -> o | _ -> "" in
       let ops = List.init (String.length ops) (fun i -> op_of_char ops.[i]) in
       let data = bytes_of_hex plain in
       let minb = big_nat (int_of_string ("0x" ^ minb)) in
@@ -72,6 +72,8 @@ let handle (line : string) : string =
           let (be, ch) = match backend with
             | "M" -> (BFile, [])
             | "R" -> (BPipe, numlist chunks)
+            | "MF" -> (BFileNoMmap, numlist chunks)
+            | "PF" -> (BFileNoMmap, [])
             | "P" -> (BPipe, [])
             | "ZR" -> (BPipeStream, [])
             | _ -> (BStream, []) in
